@@ -48,10 +48,9 @@ theorem J_step (r : RState) (o : ROp) (hJ : J r) (h : r.altActive = false ∨ o 
   | clearScreen => exact fun _ => rfl
   | enterAlt =>
     show J (enterAlt r).1
-    unfold enterAlt
-    split
-    · exact hJ
-    · exact fun _ => rfl
+    cases ha : r.altActive with
+    | true => rw [enterAlt_active r ha]; exact hJ
+    | false => exact fun _ => (enterAlt_fields r ha).2.2.1
   | exitAlt =>
     show J (exitAlt r).1
     unfold exitAlt
@@ -79,8 +78,9 @@ theorem J_step (r : RState) (o : ROp) (hJ : J r) (h : r.altActive = false ∨ o 
   | focus => exact hJ
   | noFocus => exact hJ
 
-/-- the exception is real: on the alt screen a flush with lines queued (before the alt screen was
-entered) leaves `queued ≠ []` and `lastRender ≠ []` -/
+/-- the exception is real: on the alt screen a flush with lines queued leaves `queued ≠ []` and
+`lastRender ≠ []` (lines are queued on the alt screen only when EnterAltScreen found them queued
+with no pending view, so that its render before the switch was a no-op: `Tea/Proofs/AltQueue.lean`) -/
 example :
     let r : RState := { altActive := true, queued := [[49]], buf := [97], width := 10, height := 5 }
     J r ∧ ¬ J (step r .flush).1 := by
@@ -119,7 +119,7 @@ theorem J_inline_step (r : RState) (o : ROp) (hJ : r.altActive = false → J r) 
     intro h'
     cases ha : r.altActive with
     | true =>
-      have e : step r .enterAlt = (r, []) := by simp [step, enterAlt, ha]
+      have e : step r .enterAlt = (r, []) := enterAlt_active r ha
       rw [e] at h'
       rw [ha] at h'
       cases h'
